@@ -188,12 +188,12 @@ def run(ctx: Ctx, rs: RuleSet, tier: str):
   rule_t = 'READ.tag-iteration'
   rs.declare(rule_t, 'a tag selection yields what the Buildable reports for '
              'the argument (its read API applies defaults), never the raw '
-             'argument store', 2)
+             'argument store', 1)
   ti = ctx.func('fiddle._src.selectors.TagSelection.__iter__')
   ys = [n for n in walk_function(ti.node) if isinstance(n, ast.Yield) and
         n.value is not None]
-  if len(ys) < 2:
-    raise AnalysisError('TagSelection.__iter__: expected a yield per key kind')
+  if not ys:
+    raise AnalysisError('TagSelection.__iter__ yields nothing')
   for y in ys:
     raw = [x for x in roles.expand(ti, y.value, 2) if isinstance(
         x, ast.Attribute) and x.attr == '__arguments__']
